@@ -426,8 +426,10 @@ TrChunkShutdown ==
   /\ LET e == E.ep
          unsound == IF E.cum - skipTo[e] > 50000 THEN {E.cum} ELSE {t \in (MaxI(skipTo[e], -1) + 1)..E.cum : t \notin rcvd[e]}
      IN viol' = viol \cup (IF unsound # {} THEN {V("C08_ShutdownAckSound", <<e, E.cum, Min(unsound)>>)} ELSE {})
+  \* a SHUTDOWN carries the cumulative TSN ack: it discharges the acknowledgement the endpoint owed
+  /\ misc' = [misc EXCEPT !.ackDue[E.ep] = -1]
   /\ l' = l + 1
-  /\ UNCHANGED <<scen, cfg, msg, order, reads, ch, hi, rcvd, skipTo, ackCum, ackGap, arw, outst, lastSack, sackEv, sn, step, newData, misc, rs, acc>>
+  /\ UNCHANGED <<scen, cfg, msg, order, reads, ch, hi, rcvd, skipTo, ackCum, ackGap, arw, outst, lastSack, sackEv, sn, step, newData, rs, acc>>
 
 \* --- RECONFIG written by endpoint e: outgoing reset requests (C14: ordered after the streams' data)
 \*     and responses ("performed" = the receiver reset the incoming streams: a later chunk on that
